@@ -27,7 +27,7 @@ RULE = (
     "base spelling {absolute, relative to cwd, trailing '/', via symlinked dir, with '..', '.'} + entry point {numpy, "
     "__array__, tobytes, tofile(BytesIO), tofile(file), LazyTensor wrapper, load_to_model, ir.save of a model holding the "
     "tensor} ; or mode 'load': a model file referencing such a location is written, cwd changed, and ir.load() is given "
-    "{bare name, ./name, relative with .., absolute, via symlinked dir}. Non-trivial = the location leaves the base "
+    "{bare name, ./name, relative with .., absolute, via symlinked dir, via '<symlinked dir>/..' next to a decoy directory}. Non-trivial = the location leaves the base "
     "lexically or through a link, or the base spelling is not a normalised absolute path. distinct = case JSON."
 )
 ASSUMPTIONS = [
@@ -39,7 +39,9 @@ BUDGET = {"quick": (16, 350), "thorough": (16, 8000)}
 COMPONENTS = [".", "..", "in.bin", "sub", "sub/in2.bin", "", "link_in", "link_out", "dlink_in", "dlink_out", "hard_in", "hard_out",
               "nope.bin", "..", "../outside", "canary.bin", "../base_evil", "evil.bin", "dirfile", "in.bin/", "sub/..", "ABS_OUT", "ABS_IN", "ABS_BASE",
               # '..' right after a directory symlink: lexical normalisation and the file system disagree about where this leads
-              "dlink_out/..", "dlink_out/../canary.bin", "dlink_in/..", "dlink_in/../in.bin", "dlink_out/../base/in.bin", "dlink_out/odir/../canary.bin"]
+              "dlink_out/..", "dlink_out/../canary.bin", "dlink_in/..", "dlink_in/../in.bin", "dlink_out/../base/in.bin", "dlink_out/odir/../canary.bin",
+              # symbolic links that stay inside the base but end at a hard-linked file, and chains of links
+              "link_hard_in", "link_hard_out", "link_chain", "link_chain_hard", "sub/link_up_hard", "dlink_in/link_up_hard"]
 BASES = ["abs", "rel", "abs_slash", "via_symlink", "dotdot", "dot", "rel_dotslash", "abs_unnorm"]
 ENTRIES = ["numpy", "__array__", "tobytes", "tofile_bytesio", "tofile_file", "lazy", "load_to_model", "save"]
 # where the external tensor sits in the loaded model
@@ -47,7 +49,7 @@ WHERES = ["main_initializer", "subgraph_initializer", "depth2_subgraph_initializ
           "constant_attr_depth2", "constant_attr_function", "tensors_attr_subgraph"]
 PRE = ["none", "numpy", "tobytes", "__array__", "numpy_then_release"]
 HARMLESS = b"HARMLESS" * 2
-LOADS = ["bare", "dot_slash", "rel_dotdot", "absolute", "via_symlink_dir", "rel_subdir"]
+LOADS = ["bare", "dot_slash", "rel_dotdot", "absolute", "via_symlink_dir", "rel_subdir", "symlink_dir_dotdot_abs", "symlink_dir_dotdot_rel"]
 
 
 def strategy(tier, phase):
@@ -90,6 +92,19 @@ def make_tree(root):
     os.link(os.path.join(base, "hsrc.bin"), os.path.join(base, "hard_in"))
     os.link(os.path.join(root, "outside", "odir", "deep.bin"), os.path.join(base, "hard_out"))
     os.symlink("base", os.path.join(root, "base_link"))
+    os.symlink("hard_in", os.path.join(base, "link_hard_in"))
+    os.symlink("hard_out", os.path.join(base, "link_hard_out"))
+    os.symlink("link_in", os.path.join(base, "link_chain"))
+    os.symlink("link_hard_out", os.path.join(base, "link_chain_hard"))
+    os.symlink(os.path.join("..", "hard_out"), os.path.join(base, "sub", "link_up_hard"))
+    # a decoy directory next to the base: it holds data files of the same names, and a directory symlink into the base,
+    # so that '<decoy>/into_sub/..' is the base for the file system but the decoy for a lexical normalisation
+    work = os.path.join(root, "work")
+    os.makedirs(os.path.join(work, "sub"))
+    for rel, data in (("in.bin", b"CANARY-W" * 2), (os.path.join("sub", "in2.bin"), b"CANARY-X" * 2)):
+        with open(os.path.join(work, rel), "wb") as f:
+            f.write(data)
+    os.symlink(os.path.join("..", "base", "sub"), os.path.join(work, "into_sub"))
     return base
 
 
@@ -283,6 +298,11 @@ def execute(case):
                 arg = mpath
             elif how == "via_symlink_dir":
                 arg = os.path.join(root, "base_link", "model.onnx")
+            elif how == "symlink_dir_dotdot_abs":
+                arg = os.path.join(root, "work", "into_sub", "..", "model.onnx")  # the file system opens base/model.onnx
+            elif how == "symlink_dir_dotdot_rel":
+                os.chdir(root)
+                arg = os.path.join("work", "into_sub", "..", "model.onnx")
             else:
                 os.chdir(root)
                 arg = "base/model.onnx"
@@ -455,5 +475,7 @@ def selftest():
         assert oracle_allowed(base, "dlink_in/in2.bin")[0]
         assert not oracle_allowed(base, "../base_evil/evil.bin")[0]
         assert not oracle_allowed(base, "sub")[0]
+        assert not oracle_allowed(base, "link_hard_in")[0] and not oracle_allowed(base, "link_chain_hard")[0] and oracle_allowed(base, "link_chain")[0]
+        assert open(os.path.join(root, "work", "into_sub", "..", "in.bin"), "rb").read().startswith(b"INSIDE-0")
     finally:
         shutil.rmtree(root, ignore_errors=True)
